@@ -259,6 +259,29 @@ def check_hash(case, res, monitor=False):
                                 case=dict(kind="hash", **case),
                                 witness=dict(disasm=ebpfvm.disasm(ld.code)))
                             return mon
+            # the same object is loaded a second time (a restart after
+            # close(), a reload): every variable holds its default again
+            if case["ops"] and sum(map(len, map(str, case["vars"]))) % 3 == 0:
+                try:
+                    e.load()
+                except OSError as ex:
+                    res.violation("unexplained:hash-reload",
+                                  f"second load() failed: {str(ex)[-120:]}",
+                                  case=dict(kind="hash", **case))
+                    return mon
+                res.count("hash_programs_loaded_a_second_time")
+                for i, (n, f, d) in enumerate(case["vars"]):
+                    got = raw(i)
+                    py = getattr(e, n)
+                    if got is None or sx(got, f) != sx(d, f) or \
+                            sx(py & ((1 << 64) - 1), f) != sx(d, f):
+                        res.violation(
+                            "unexplained:hash-default-after-reload",
+                            f"{n} ({f}) default {d}: after loading the "
+                            f"object a second time the kernel holds {got}, "
+                            f"Python reads {py}",
+                            case=dict(kind="hash", **case))
+                        return mon
             if len(res.samples) < 2:
                 res.sample(dict(kind="hash", **case))
         finally:
